@@ -65,7 +65,7 @@ Proof.
   intros i st HI. unfold delete_impl. destruct (okey (get st i)) as [k|] eqn:E; simpl; auto.
   destruct (isdel (get st i)); simpl; [apply autobegin_inv; auto|].
   destruct (conflict i (autobegin st)) eqn:Ec; simpl; [apply autobegin_inv; auto|].
-  eapply pass_add; [rewrite autobegin_get; exact E|exact Ec| |apply autobegin_inv; auto].
+  apply Inv_flag_bad. eapply pass_add; [rewrite autobegin_get; exact E|exact Ec| |apply autobegin_inv; auto].
   ocase.
 Qed.
 
@@ -73,7 +73,7 @@ Lemma revert_impl_inv : forall i st, Inv st -> Inv (fst (revert_impl i st)).
 Proof.
   intros i st HI. unfold revert_impl. destruct (okey (get st i)) as [k|] eqn:E; simpl; auto.
   destruct (odel (get st i) && negb (osess (get st i))); simpl; auto.
-  apply pass_claiming; auto. intros o Hk Hj.
+  apply Inv_flag_bad. apply pass_claiming; auto. intros o Hk Hj.
   assert (Ko : okey o = Some k) by (rewrite <- (get_nth _ _ _ Hk); exact E).
   revert Hj Ko. ocase.
 Qed.
@@ -102,8 +102,8 @@ Proof.
     + intros k o' Hk. apply app_all_inv_nth in Hk as [o [Hk ->]]. unfold only.
       pose proof (HN k o Hk) as Hn. simpl in Hn. destruct (Nat.eqb k i); auto.
   - split.
-    + apply pass_claiming; auto. intros o Hk Hj. pose proof (HN i o Hk) as Hn. simpl in Hn. revert Hj Hn. ocase.
-    + intros k o' Hk. apply app_all_inv_nth in Hk as [o [Hk ->]]. unfold claiming.
+    + apply Inv_flag_bad. apply Inv_flag_bad. apply pass_claiming; auto. intros o Hk Hj. pose proof (HN i o Hk) as Hn. simpl in Hn. revert Hj Hn. ocase.
+    + intros k o' Hk. simpl in Hk. apply app_all_inv_nth in Hk as [o [Hk ->]]. unfold claiming.
       pose proof (HN k o Hk) as Hn. simpl in Hn. destruct (Nat.eqb k i); auto.
       destruct (iimap o && okey_eqb (okey o) (Some old)); auto.
 Qed.
@@ -141,7 +141,7 @@ Proof.
   intros. unfold organize_one. destruct (holder _ st); simpl; auto.
   destruct (eexp e n && eidexp e n && negb (osess (get st n))); simpl; auto.
   destruct (eexp e n && negb (memz (pk (get st p)) rws)); simpl; auto.
-  apply pass_mono_only; auto. apply mono_newly_deleted.
+  apply Inv_flag_bad. apply pass_mono_only; auto. apply mono_newly_deleted.
 Qed.
 
 Lemma organize_inv : forall e d rws ps st, Inv st -> Inv (fres_state (fst (organize e d rws st ps))).
@@ -155,7 +155,7 @@ Qed.
 
 Lemma register_one_inv : forall st i, Inv st -> Inv (register_one st i).
 Proof.
-  intros st i HI. unfold register_one. apply pass_claiming; auto.
+  intros st i HI. unfold register_one. apply Inv_flag_bad. apply pass_claiming; auto.
   intros o Hk Hj. unfold register_obj.
   destruct (okey o) as [k|] eqn:Ek.
   - destruct (key_eqb k (pk (get st i), otok (get st i))) eqn:Ee.
@@ -233,8 +233,8 @@ Proof.
   destruct (negb (eexp e h)); simpl; auto. destruct (negb (eidexp e h)); simpl; auto.
   destruct (negb (osess (get st h))); simpl; auto.
   pose proof (sql_inv e st HI) as H1. destruct (sql e st) as [[st1 c] rws]. simpl in H1.
-  assert (Hg : Inv (rst (get_miss (with_rows e rws) k (app_all (only h (newly_deleted_obj (has_tx st1))) st1)))).
-  { apply get_miss_inv. apply pass_mono_only; auto. apply mono_newly_deleted. }
+  assert (Hg : Inv (rst (get_miss (with_rows e rws) k (flag_bad true (app_all (only h (newly_deleted_obj (has_tx st1))) st1))))).
+  { apply get_miss_inv. apply Inv_flag_bad. apply pass_mono_only; auto. apply mono_newly_deleted. }
   destruct (Z.eqb c 5); auto. destruct (Z.eqb c 0); simpl; auto.
   destruct (negb (memz (key_pk (get st1 h)) rws)); simpl; auto.
 Qed.
